@@ -8,10 +8,16 @@ import Voi.Drv.Ristretto
 import Voi.Drv.H2C
 import Voi.Drv.ECVRF
 import Voi.Drv.Lattice
+import Voi.Drv.Batch
+import Voi.Drv.T0
+import Voi.Drv.Sr25519
 namespace Voi.Drv
 
 structure DrvState where
   merlin : MerlinDrv := {}
+  batch : BatchDrv := {}
+  ir : List IRProg := []
+  sr : SrDrv := {}
 
 def dispatch (st : DrvState) (ws : List String) : DrvState × String :=
   match ws with
@@ -29,6 +35,11 @@ def dispatch (st : DrvState) (ws : List String) : DrvState × String :=
   | "H2" :: op :: a => (st, handleH2 op a)
   | "E1" :: op :: a => (st, handleE1 op a)
   | "L1" :: op :: a => (st, handleL1 op a)
+  | "Q1" :: op :: a => let (s, r) := handleQ1 st.sr op a; ({ st with sr := s }, r)
+  | "T0" :: op :: a => (st, handleT0 st.ir op a)
+  | "B1" :: op :: a => let r := handleBatch st.batch "B1" op a; ({ st with batch := r.1 }, r.2)
+  | "C1" :: op :: a => let r := handleBatch st.batch "C1" op a; ({ st with batch := r.1 }, r.2)
+  | "C2" :: op :: a => let r := handleBatch st.batch "C2" op a; ({ st with batch := r.1 }, r.2)
   | _ => (st, "bad-op")
 
 end Voi.Drv
